@@ -29,6 +29,9 @@ def check(ctx: Ctx) -> str:
     from .c37 import derived_context_rule
 
     derived_context_rule(ctx, "R7")
+    from ..escrules import template_eval_ctx_rule
+
+    template_eval_ctx_rule(ctx, "R8")
     # an overlay with other options (autoescape, sandbox interception) must compile its own
     # templates: it starts with an empty cache (rule owned by C25)
     from . import c25
